@@ -160,7 +160,7 @@ GapIdnaFirst(k) == ~FixIdnaFirst /\ IsNet(res[k]) /\ NormIpv4(res[k].hostname).o
 \* userinfo: "%25xx" is decoded to "%xx", written back unescaped, and decoded again by the next pass
 GapUserPct(k) == ~FixUserPct /\ IsNet(res[k]) /\ (Has(res[k].username, PCT) \/ Has(res[k].password, PCT))
 \* userinfo is always re-encoded as UTF-8, whatever the document encoding
-GapUserEnc(k) == fam.enc # "utf-8" /\ IsNet(res[k]) /\ (~AllAscii(res[k].username) \/ ~AllAscii(res[k].password))
+GapUserEnc(k) == ~FixUserPct /\ fam.enc # "utf-8" /\ IsNet(res[k]) /\ (~AllAscii(res[k].username) \/ ~AllAscii(res[k].password))
 \* an IPv6 zone identifier keeps its case
 GapScope(k) == IsNet(res[k]) /\ res[k].v6 /\ Has(res[k].hostname, PCT)
 
